@@ -22,6 +22,7 @@ import random
 import re
 import time
 import warnings
+import zlib
 
 import torch
 
@@ -45,7 +46,8 @@ def defaults():
                         maxit=S.max_cg_iterations.value(), mps=S.max_preconditioner_size.value(),
                         minps=S.min_preconditioning_size.value(), memeff=S.memory_efficient.on(),
                         lanczos=S.max_lanczos_quadrature_iterations.value(),
-                        jit_exp=jitter_exp(S.cholesky_jitter.value(F64)), tries=S.cholesky_max_tries.value())
+                        jit_exp=jitter_exp(S.cholesky_jitter.value(F64)), tries=S.cholesky_max_tries.value(),
+                        mrds=S.max_root_decomposition_size.value())
     return DEFAULTS
 
 
@@ -101,6 +103,14 @@ def settings_ctx(st):
             es.enter_context(S.cholesky_jitter(double_value=float("1e-%d" % st["jit_exp"])))
         if "tries" in st:
             es.enter_context(S.cholesky_max_tries(st["tries"]))
+        if "mrds" in st:
+            es.enter_context(S.max_root_decomposition_size(st["mrds"]))
+        if "mlq" in st:
+            es.enter_context(S.max_lanczos_quadrature_iterations(st["mlq"]))
+        if st.get("ldt"):
+            # linalg_dtypes with ONE argument given (default / symeig / cholesky), the others left at their defaults
+            arg, dt = st["ldt"]
+            es.enter_context(S.linalg_dtypes(**{arg: torch.float32 if dt == "f32" else torch.float64}))
         es.enter_context(S.verbose_linalg(True))
         yield
 
@@ -561,6 +571,74 @@ def family_cells(ctx, rng, configs):
                         add("rhs", cls, kw, n, ob, kind, st, KAPPAS[(ci + mi) % 3], via="func", rhsmod=mod)
                         if cls not in NOT_SYMMETRIC and not (cls == "BatchRepeat" and kind == "mat"):
                             add("rhs", cls, kw, n, ob, kind, st, KAPPAS[(ci + mi) % 3], via="backward", rhsmod=mod)
+    out += threshold_cells(ctx, d, base, CG)
+    return out
+
+
+# (d) size thresholds and precision settings.  Every size-valued setting a solve path reads gets operator / factor sizes on BOTH
+#     sides, by LOWERING the setting to the quick-tier sizes: max_cholesky_size (selector; the root method of
+#     root_inv_decomposition(); the eigen method of diagonalization()), max_root_decomposition_size (Lanczos budget: must NOT
+#     change an exact root), max_cg_iterations / max_lanczos_quadrature_iterations (CG), min_preconditioning_size /
+#     max_preconditioner_size (AddedDiag rows of the class grid); and linalg_dtypes with each single argument on float64 and
+#     float32 operators, on the eigen-structured AND the Cholesky path of the same operator.
+THRESHOLD_CONFIGS = [
+    ("SumKron", {"sizes": (2, 3)}, 6), ("SumKron", {"sizes": (3, 2)}, 6), ("SumKron", {"sizes": (2, 2, 2)}, 8),
+    ("KronAddedDiag", {"sizes": (2, 3), "dk": "const"}, 6), ("KronAddedDiag", {"sizes": (2, 2, 2), "dk": "const"}, 8),
+    ("KronAddedDiag", {"sizes": (2, 3), "dk": "kconst"}, 6), ("KronAddedDiag", {"sizes": (3, 2), "dk": "kdiag"}, 6),
+    ("KronAddedDiag", {"sizes": (2, 3), "dk": "general"}, 6),
+    ("Kron", {"sizes": (2, 3)}, 6), ("Kron", {"sizes": (2, 2, 2)}, 8), ("Kron", {"sizes": (2, 3), "fcls": ["Dense", "Diag"]}, 6),
+    ("LowRankRootAddedDiag", {"rank": 2}, 5), ("Dense", {}, 5), ("AddedDiag", {}, 6), ("Root", {}, 6),
+    ("BlockDiag", {"blocks": 2}, 3), ("BatchRepeat", {"rep": (2,)}, 3),
+]
+PRECISION_CONFIGS = [
+    ("KronAddedDiag", {"sizes": (2, 3), "dk": "const"}, 6), ("KronAddedDiag", {"sizes": (2, 3), "dk": "kconst"}, 6),
+    ("KronAddedDiag", {"sizes": (3, 2), "dk": "kdiag"}, 6), ("SumKron", {"sizes": (2, 3)}, 6),
+    ("Kron", {"sizes": (2, 3)}, 6), ("Dense", {}, 5), ("LowRankRootAddedDiag", {"rank": 2}, 5),
+]
+LDTS = [("default", "f32"), ("cholesky", "f32"), ("symeig", "f32"), ("default", "f64"), ("symeig", "f64"), ("cholesky", "f64")]
+
+
+def threshold_cells(ctx, d, base, CG):
+    out = []
+
+    def add(fam, cls, kw, n, ob, kind, st, kappa, dtype="f64"):
+        N = total_size(cls, kw, n)
+        out.append(dict(cls=cls, kw=kw, n=n, N=N, ob=tuple(ob), kind=kind, st=dict(st), kappa=kappa, dtype=dtype, fam=fam, via="solve"))
+
+    for ci, (cls, kw, n) in enumerate(THRESHOLD_CONFIGS):
+        N = total_size(cls, kw, n)
+        ms = max(kw["sizes"]) if "sizes" in kw else N          # the largest factor (what root / eigen methods are chosen by)
+        mcs_vals = sorted({v for v in (ms - 1, ms, N - 1, N) if v >= 1})
+        rows = []
+        for i, mcs in enumerate(mcs_vals):
+            # max_root_decomposition_size below and above the factor size, alternating with the threshold
+            for mrds in ((1, N + 3) if i % 2 == 0 else (max(1, ms - 1), ms)):
+                rows.append(dict(base, mcs=mcs, mrds=mrds))
+        # conjugate gradients: iteration budget below / above the size, with the Lanczos-quadrature bound below / at it
+        if cls in ("Dense", "AddedDiag", "Root", "KronAddedDiag", "BatchRepeat") and kw.get("dk", "general") == "general":
+            rows.append(dict(CG(1e-4), maxit=3, mlq=2))
+            rows.append(dict(CG(1e-4), maxit=N + 5, mlq=N + 5))
+            rows.append(dict(CG(1e-2), maxit=N + 5, mlq=2))
+        for ri, st in enumerate(rows):
+            variants = [((), "mat"), ((), "left"), ((2,), "bat")]
+            if cls == "BatchRepeat":
+                variants = [((), "mat"), ((), "left")]
+            for ob, kind in (variants if ctx.quick else variants + [((2,), "leftbat"), ((), "vec")]):
+                add("threshold", cls, kw, n, ob, kind, st, KAPPAS[(ci + ri) % 3])
+
+    for ci, (cls, kw, n) in enumerate(PRECISION_CONFIGS):
+        N = total_size(cls, kw, n)
+        ms = max(kw["sizes"]) if "sizes" in kw else N
+        for li, ldt in enumerate(LDTS):
+            # the structured path (threshold between the largest factor and N) and the Cholesky path of the SAME operator
+            for pi, st0 in enumerate([dict(base, mcs=ms if ms < N else 0), dict(base)]):
+                st = dict(st0, ldt=list(ldt))
+                for dtype in ("f64", "f32"):
+                    if dtype == "f32" and st["mcs"] == 0 and cls in ("Dense", "Kron"):
+                        continue                      # (CG in float32 is not in the quantifier)
+                    for kind in ("mat", "left"):
+                        add("precision", cls, kw, n, (), kind, st, KAPPAS[(ci + li) % 2], dtype)
+                        out[-1]["pair"] = "precision/%d/%s=%s/%s/%s" % (ci, ldt[0], ldt[1], dtype, kind)
     return out
 
 
@@ -601,6 +679,15 @@ def value_tol(kappa, dtype="f64"):
     if kappa > 1e6:
         return 1e-6          # (two backward-stable algorithms differ by O(kappa * eps))
     return 1e-9 if kappa <= 1e4 else 1e-7
+
+
+def cell_tol(cell, events):
+    """value tolerance of a cell: that of the operator's dtype, except that an eigen-structured method under
+    linalg_dtypes(symeig = float32) is specified to compute in float32"""
+    dt = cell.get("dtype", "f64")
+    if dt != "f32" and coarse_method(events) == "eig" and linalg_single(cell["st"])[0]:
+        dt = "f32"
+    return value_tol(cell["kappa"], dt)
 
 
 SING_TOL = 1e-3      # model-vs-implementation tolerance for a numerically singular member (cond(A + jitter I) ~ 1e8); the
@@ -645,7 +732,7 @@ def predicate(cell, spec, rhs, left, obs):
         return ("raises", "second solve on the same object: " + obs["exc2"])
     out2 = obs.get("out2")
     if not torch.is_tensor(out2) or out2.shape != out.shape or \
-            (out2 - out).abs().max().item() > value_tol(cell["kappa"], cell.get("dtype", "f64")) * max(1.0, out.abs().max().item()):
+            (out2 - out).abs().max().item() > cell_tol(cell, obs["events"]) * max(1.0, out.abs().max().item()):
         return ("repeat", "a second solve on the same object returns a different answer")
     if "fwd" in obs:
         # backward pass: the forward result is judged too (value on direct paths)
@@ -679,7 +766,7 @@ def predicate(cell, spec, rhs, left, obs):
     cgs = [e for e in obs["events"] if e[0] == "cg"]
     if not cgs:
         err = (out - ref).abs().max().item() / max(1.0, ref.abs().max().item())
-        tol = value_tol(cell["kappa"], cell.get("dtype", "f64"))
+        tol = cell_tol(cell, obs["events"])
         if err > tol:
             return ("value", "max rel err %.3e > %.1e" % (err, tol))
         return None
@@ -728,9 +815,26 @@ def event_lit(e):
 
 def settings_lit(st):
     d = defaults()
-    return "(MkSettings %d%%N %s %d%%N %d%%N %d%%N %s false %d%%N %d%%N)" % (
+    sym32, chol32 = linalg_single(st)
+    return "(MkSettings %d%%N %s %d%%N %d%%N %d%%N %s false %d%%N %d%%N %d%%N %s %s)" % (
         st["mcs"], common.coq_bool(st["fast"]), st["maxit"], st["mps"], st["minps"], common.coq_bool(st["memeff"]),
-        st.get("jit_exp", d["jit_exp"]), st.get("tries", d["tries"]))
+        st.get("jit_exp", d["jit_exp"]), st.get("tries", d["tries"]), st.get("mrds", d["mrds"]),
+        common.coq_bool(sym32), common.coq_bool(chol32))
+
+
+def linalg_single(st):
+    """(symeig dtype is float32, cholesky dtype is float32) as DOCUMENTED for linalg_dtypes(default=double, symeig=None, cholesky=None):
+    an argument that is not given takes the value of `default` (not read back from the library: independent specification)"""
+    ldt = st.get("ldt")
+    if not ldt:
+        return False, False
+    arg, dt = ldt
+    single = dt == "f32"
+    if arg == "default":
+        return single, single
+    if arg == "symeig":
+        return single, False
+    return False, single
 
 
 def case_lit(cell, spec, rhs, left, obs):
@@ -839,7 +943,8 @@ def key_of(cell, spec, obs, fail):
          "family": cell.get("fam", "grid"), "rhsmod": cell.get("rhsmod")}
     if isinstance(spec.get("base"), dict):
         k["base"] = spec["base"]["cls"]
-    if cell["cls"] == "KronAddedDiag":
+    k["linalg_dtypes"] = "%s=%s" % tuple(cell["st"]["ldt"]) if cell["st"].get("ldt") else None
+    if cell["cls"] in ("KronAddedDiag", "SumKron"):
         k["diag_kind"] = cell["kw"].get("dk") if isinstance(cell.get("kw"), dict) else None
         # the structured branch with a factor larger than max_cholesky_size (its diagonalization() then runs Lanczos)
         k["factor_above_max_cholesky_size"] = bool(cell["st"]["fast"] and cell["N"] > cell["st"]["mcs"]
@@ -895,8 +1000,13 @@ def generate(ctx, budget_s=None):
     torch.manual_seed(ctx.seed)          # the library's own randomness (Lanczos probe vectors) is derived from the seed too
     t0 = time.time()
     for cell in cells(ctx):
-        spec = ops.gen(rng, cell["cls"], cell["n"], cell["kappa"], cell["ob"], **cell["kw"])
-        rhs, left = make_rhs(rng, cell["kind"], cell["N"], ops.batch(spec), cell.get("rhsmod"))
+        r = rng
+        if cell.get("pair"):
+            # cells that must see the SAME operator and right-hand side (one per solve path): their values come from a
+            # generator keyed by the pair id
+            r = random.Random(ctx.seed * 1000003 + zlib.crc32(cell["pair"].encode()))
+        spec = ops.gen(r, cell["cls"], cell["n"], cell["kappa"], cell["ob"], **cell["kw"])
+        rhs, left = make_rhs(r, cell["kind"], cell["N"], ops.batch(spec), cell.get("rhsmod"))
         if cell.get("via") == "backward":
             # `rhs` plays the upstream gradient; the forward right-hand side is an ordinary one of the same shape
             cell = dict(cell, fwd_rhs=ops._randn(rng, *rhs.shape))
@@ -915,7 +1025,7 @@ def direct_search(ctx, limit=5):
         if f:
             key = key_of(cell, spec, obs, f[0])
             sig = (key["tree"], key["fail"], key["method"], key["kind"])
-            if sig in seen:
+            if common.kf_match(PROP, key) is not None or sig in seen:
                 continue
             seen.add(sig)
             if ctx.violation(dict(replay_of(cell, spec, rhs, left, obs, "property-failure"), what=f[1]), key=key):
@@ -1000,7 +1110,11 @@ def run(ctx):
             # (one report per operator tree x failure kind x path x rhs kind x entry point: a listed finding in one cell must not
             #  hide a different failure of the same class)
             sig = (key["tree"], key["fail"], key["method"], key["kind"], key["via"], key["rhsmod"], key["batched"])
-            if sig not in seen_fail:
+            if common.kf_match(PROP, key) is not None:
+                # a cell of a listed finding: recorded (not counted) and NOT entered into the de-duplication, so that it cannot
+                # hide a failure with the same signature in a cell the finding does not cover
+                ctx.violation(dict(replay_of(cell, spec, rhs, left, obs, "property-failure"), what=f[1]), key=key)
+            elif sig not in seen_fail:
                 seen_fail.add(sig)
                 ctx.violation(dict(replay_of(cell, spec, rhs, left, obs, "property-failure"), what=f[1]), key=key)
         if cell["N"] > 1:
@@ -1008,6 +1122,26 @@ def run(ctx):
                           json.dumps(cell["st"], sort_keys=True), cell["kappa"], cell.get("via", "solve"), cell.get("rhsmod"),
                           tuple(cell.get("profile") or ())))
         cases.append((cell, spec, rhs, left, obs, lit, f))
+    # the answer must not depend on the method: cells of one pair (same operator, same right-hand side, same linalg_dtypes,
+    # different max_cholesky_size => different solve path) agree to the accuracy each path is specified to have
+    pairs = {}
+    for c in cases:
+        if c[0].get("pair") and torch.is_tensor(c[4].get("out")) and c[6] is None:
+            pairs.setdefault(c[0]["pair"], []).append(c)
+    stats["cross_method_pairs"] = 0
+    for pid, cs in sorted(pairs.items()):
+        for a, b in zip(cs, cs[1:]):
+            if "cg" in (coarse_method(a[4]["events"]), coarse_method(b[4]["events"])):
+                continue          # (a CG answer is only specified up to cg_tolerance: judged by the residual predicate)
+            stats["cross_method_pairs"] += 1
+            oa, ob_ = a[4]["out"].to(F64), b[4]["out"].to(F64)
+            tol = cell_tol(a[0], a[4]["events"]) + cell_tol(b[0], b[4]["events"])
+            diff = (oa - ob_).abs().max().item() / max(1.0, oa.abs().max().item())
+            if oa.shape != ob_.shape or not diff <= tol:
+                ctx.violation(dict(replay_of(b[0], b[1], b[2], b[3], b[4], "method-dependent-answer"),
+                                   what="the same solve under max_cholesky_size %s (%s) and %s (%s): answers differ by %.3e > %.1e"
+                                        % (a[0]["st"]["mcs"], coarse_method(a[4]["events"]), b[0]["st"]["mcs"], coarse_method(b[4]["events"]), diff, tol)),
+                              key=key_of(b[0], b[1], b[4], "method-dependent"))
     t_impl = time.time() - t0
 
     mism = {}
